@@ -36,7 +36,104 @@ func rng(bs []big, ss []small, arr [600]byte) int {
 }
 `
 
+// ctorMode: the first thing this process does with the checker constructors is to run them from several
+// goroutines at once (what a go/analysis driver does with one pass per package); every goroutine then analyses
+// the same small programs with its own set, and all of them must report the same.
+func ctorMode() {
+	harness.Init()
+	srcs := []string{structs,
+		"package vpkg\n\nimport (\n\t\"strings\"\n\t\"sync\"\n)\n\nfunc f(s string, xs []int, m *sync.Map) bool {\n\tif v, ok := m.Load(1); ok {\n\t\tm.Delete(1)\n\t\t_ = v\n\t}\n\txs = append(xs, 1)\n\txs = append(xs, 2)\n\treturn strings.Index(s, \"a\") >= 0 || len(s) >= 0 || strings.HasPrefix(\"x\", s)\n}\n"}
+	const n = 8
+	start := make(chan struct{})
+	outs := make([]string, n)
+	var wg sync.WaitGroup
+	for g := 0; g < n; g++ {
+		wg.Add(1)
+		go func(g int) {
+			defer wg.Done()
+			defer func() {
+				if r := recover(); r != nil {
+					outs[g] = fmt.Sprint("PANIC ", r)
+				}
+			}()
+			<-start
+			s, err := harness.NewSet(harness.Infos(nil), "")
+			if err != nil {
+				outs[g] = "ERR " + err.Error()
+				return
+			}
+			var all []string
+			for _, src := range srcs {
+				pk := harness.LoadOne(src)
+				d, crashes := s.VisitAll(pk)
+				all = append(all, harness.SortedDiagStrings(d)...)
+				for _, c := range crashes {
+					all = append(all, "CRASH "+c.Checker+" "+c.Value)
+				}
+			}
+			outs[g] = strings.Join(all, "\n")
+		}(g)
+	}
+	close(start)
+	wg.Wait()
+	// reference: a set constructed now, alone
+	ref := ""
+	{
+		s, err := harness.NewSet(harness.Infos(nil), "")
+		if err != nil {
+			fmt.Println("CTOR-BROKEN", err)
+			os.Exit(2)
+		}
+		var all []string
+		for _, src := range srcs {
+			pk := harness.LoadOne(src)
+			d, _ := s.VisitAll(pk)
+			all = append(all, harness.SortedDiagStrings(d)...)
+		}
+		ref = strings.Join(all, "\n")
+	}
+	if len(ref) < 50 {
+		fmt.Println("CTOR-BROKEN reference run reports nothing")
+		os.Exit(2)
+	}
+	for g, o := range outs {
+		if o != ref {
+			fmt.Printf("CTOR-VIOLATION goroutine %d of %d constructing checker sets at the same time reports differently from a set constructed alone:\n%s\n", g, n, firstDiff(ref, o))
+			break
+		}
+	}
+	harness.Cleanup()
+	fmt.Println("CTOR-DONE")
+}
+
+func firstDiff(a, b string) string {
+	al, bl := strings.Split(a, "\n"), strings.Split(b, "\n")
+	in := map[string]int{}
+	for _, l := range al {
+		in[l]++
+	}
+	for _, l := range bl {
+		in[l]--
+	}
+	var out []string
+	for l, n := range in {
+		if n > 0 {
+			out = append(out, "  missing: "+l)
+		} else if n < 0 {
+			out = append(out, "  extra:   "+l)
+		}
+	}
+	if len(out) > 6 {
+		out = out[:6]
+	}
+	return strings.Join(out, "\n")
+}
+
 func main() {
+	if len(os.Args) > 1 && os.Args[1] == "-ctor" {
+		ctorMode()
+		return
+	}
 	harness.Init()
 	var progs []progenum.Prog
 	add := func(p progenum.Prog) { progs = append(progs, p) }
@@ -74,20 +171,24 @@ func main() {
 				set.Ctx.SetPackageInfo(pk.Info, pk.Types)
 			}
 			set.Ctx.SetFileInfo(pk.Names[fi], f)
-			conc := []int{2, 4, 16}[(pi+fi)%3]
-			sema := make(chan struct{}, conc)
-			var wg sync.WaitGroup
-			for _, c := range set.Checkers {
-				c := c
-				wg.Add(1)
-				sema <- struct{}{}
-				go func() {
-					defer wg.Done()
-					defer func() { <-sema; recover() }()
-					_ = len(c.Check(f))
-				}()
+			// once with a small limit (the hand-offs of the semaphore order checkers that are far apart in the
+			// list, as in the CLI when every checker is quick) and once with no effective limit (any two
+			// checkers may overlap, as in the CLI when one of them is slow)
+			for _, conc := range []int{[]int{2, 4, 16}[(pi+fi)%3], len(set.Checkers)} {
+				sema := make(chan struct{}, conc)
+				var wg sync.WaitGroup
+				for _, c := range set.Checkers {
+					c := c
+					wg.Add(1)
+					sema <- struct{}{}
+					go func() {
+						defer wg.Done()
+						defer func() { <-sema; recover() }()
+						_ = len(c.Check(f))
+					}()
+				}
+				wg.Wait()
 			}
-			wg.Wait()
 			n++
 		}
 		pk.Release()
